@@ -8,7 +8,7 @@ from pv import env, exact, gens
 ID = "C04"
 LEVEL = "exploration"
 UNDOC_IS_VIOLATION = True   # "a tactic that cannot achieve it must decline (...), never return something else"
-N = {"quick": 450, "thorough": 9000}
+N = {"quick": 1350, "thorough": 9000}
 RULE = ("cases = (term list, context, variables to eliminate, refine|relax, simplify, tactics_order); random part drawn "
         "by Hypothesis from shape classes random/elimonly/chain/bounds/degenerate with witness-derived constants, "
         "grid part enumerated over small integer coefficients; non-trivial = the call returned and at least one entry of "
